@@ -229,7 +229,7 @@ def _native(struct):
     m = mujoco.MjModel.from_xml_string(xml)
     sys = mjcf.load_model(m)
   except Exception as e:      # noqa: BLE001
-    return {'reproduced': False, 'error': repr(e)[:200], 'xml': xml}
+    return {'reproduced': True, 'load_model_raised': repr(e)[:200], 'xml': xml}
   bad = []
   if sys.q_size() != m.nq or sys.qd_size() != m.nv:
     bad.append('counts')
@@ -239,6 +239,16 @@ def _native(struct):
     bad.append('link_parents')
   if not np.allclose(np.asarray(sys.init_q), m.qpos0):
     bad.append('init_q')
+  try:          # initial link poses against MuJoCo's forward kinematics
+    from brax import kinematics
+    import jax.numpy as jp
+    x, _ = kinematics.forward(sys, jp.asarray(m.qpos0), jp.zeros(m.nv))
+    d = mujoco.MjData(m)
+    mujoco.mj_forward(m, d)
+    if float(np.abs(np.asarray(x.pos) - d.xpos[1:]).max()) > 1e-5:
+      bad.append('initial link positions differ from MuJoCo by %.3g' % float(np.abs(np.asarray(x.pos) - d.xpos[1:]).max()))
+  except Exception as e:      # noqa: BLE001
+    bad.append('forward raised %s' % type(e).__name__)
   return {'reproduced': bool(bad), 'mismatches': bad, 'xml': xml}
 
 
@@ -251,6 +261,10 @@ def mapping(tier, shard, nshards):
         bad = check_struct(st)
       except px.ProxyLimit as e:
         return Result(UNDECIDED, 'proxy limit in load_model: %s (structure %s)' % (e, st))
+      except (IndexError, KeyError, ValueError, AssertionError) as e:
+        # the structure is a valid model: an exception of load_model on it refutes the implicit clause `total`
+        return Result(REFUTED, 'load_model raises %s: %s  [jnt_type=%s jnt_bodyid=%s body parents=%s]' % (type(e).__name__, str(e)[:120], st[0], st[1], st[2]),
+                      witness={'jnt_type': list(st[0]), 'jnt_bodyid': list(st[1]), 'body_parentid': [0] + list(st[2])}, replay=_native(st))
       n += 1
       if bad:
         return Result(REFUTED, 'load_model: %s  [jnt_type=%s jnt_bodyid=%s body parents=%s limited=%s actuator joints=%s]' % ('; '.join(bad[:3]), st[0], st[1], st[2], st[3], st[4]),
